@@ -7,6 +7,7 @@ import (
 	"encoding/hex"
 	"fmt"
 	"io"
+	"math/big"
 	"net"
 	"runtime"
 	"runtime/debug"
@@ -679,6 +680,22 @@ func main() {
 						b = append(b, str(bytes.Repeat([]byte{fill.b}, fill.n))...)
 						submit("table", []piece{wf(frames.Frame{Body: b, Kind: frames.KAddHardCert, Name: fmt.Sprintf("add-hard-cert-%d-with-%d-byte-comment-of-0x%02x", ki, fill.n, fill.b)}), wf(frames.Frame{Body: []byte{11}, Kind: frames.KList, Name: "list"})}, false)
 					}
+				}
+			}
+			// add-identity frames for RSA keys whose numbers make no key (a prime of 1 or 0, a modulus that is not the
+			// product, zero exponents): answered with a failure or refused with an error, never a crash
+			for _, nums := range [][6]int64{{15, 3, 3, 2, 1, 15}, {15, 3, 3, 2, 3, 1}, {15, 3, 3, 2, 0, 5}, {15, 3, 3, 2, 3, 0}, {0, 3, 3, 2, 3, 5}, {15, 0, 0, 0, 3, 5}, {16, 3, 3, 2, 2, 8}, {15, 3, 3, 0, 5, 3}, {-15, 3, 3, 2, 3, 5}} {
+				body := ssh.Marshal(struct {
+					Type       string
+					N, E, D    *big.Int
+					Iqmp, P, Q *big.Int
+					Comments   string
+				}{ssh.KeyAlgoRSA, big.NewInt(nums[0]), big.NewInt(nums[1]), big.NewInt(nums[2]), big.NewInt(nums[3]), big.NewInt(nums[4]), big.NewInt(nums[5]), "degenerate"})
+				for _, code := range []byte{17, 25} {
+					b := append([]byte{code}, body...)
+					pc := piece{raw: wire.Frame(b), class: "malformed", note: fmt.Sprintf("add-identity (code %d) with RSA numbers %v", code, nums)}
+					submit("table", []piece{pc}, false)
+					submit("table", []piece{wf(frames.Frame{Body: []byte{11}, Kind: frames.KList, Name: "list"}), pc}, true)
 				}
 			}
 			// add-hardware-certificate frames whose inner length fields hold the largest 32-bit values
